@@ -66,10 +66,9 @@ ALL17_LEAFSRC = list(LEAVES.values())
 def gen_C08(rng, tier):
     cases = []
     sh = shapes(2)
-    if tier != "quick":
-        extra = shapes(3)
-        rng2 = random.Random(rng.random())
-        sh = sh + rng2.sample(extra, min(len(extra), 12000))
+    extra = shapes(3)
+    rng2 = random.Random(rng.random())
+    sh = sh + rng2.sample(extra, min(len(extra), 900 if tier == "quick" else 12000))
     k = 0
     per = 12
     for i in range(0, len(sh), per):
@@ -115,6 +114,11 @@ def gen_C10(rng, tier):
                 main = HEAD + f"{'oneway ' if iow else ''}interface I{{{ms}}}"
                 cases.append(nm(f"ex{k}", project(main)))
                 k += 1
+    # duplicate-named (overloaded) methods: the void rule must still be applied to each
+    for i, (iow, ms) in enumerate(itertools.product([False, True], [
+            "void f(); oneway int f();", "oneway int f(); oneway String f(); void g();", "int f(); int f();",
+            "const int K=1; oneway int f(); oneway int f();"])):
+        cases.append(nm(f"dup{i}", project(HEAD + f"{'oneway ' if iow else ''}interface I{{{ms}}}")))
     # oneway keyword with annotations / trivia before it (the keyword's range)
     for i, pre in enumerate(["@A ", "@A() /*c*/ ", "/** d */ ", "// c\n", "@A\n\t", ""]):
         main = HEAD + "oneway interface I{" + pre + "oneway void f();" + pre + "void g();}"
@@ -145,6 +149,13 @@ def gen_projects(rng, tier, n_quick=1500, n_thorough=20000):
         [("a", "package p;import q.Foo;parcelable P{Map<String,List<Foo[]>> a;}"), ("b", "package q;interface Foo{}")],
         [("a", "package p;import p.I;interface J{void f(in I x);}"), ("b", "package p;interface I{}"), ("c", "package p;parcelable I{}")],
         [("a", "package android.os;interface IBinder{}"), ("b", "package p;import android.os.IBinder;parcelable P{IBinder a;android.os.IBinder b;}")],
+        [("a", "package p;import q.Foo;import q.Bar;import q.Foo;import q.Foo;import q.Foo;parcelable Foo;interface I{}")],
+        [("a", "package p;import a.b.AuditEvent;import p.Event;interface I{void f(in Event e, in List<Event> l, in Event[] a);}"),
+         ("b", "package p;parcelable Event{}"), ("c", "package a.b;parcelable AuditEvent{}")],
+        [("a", "package p;import a.XFoo;import z.Foo;parcelable P{Foo a; XFoo b;}"), ("b", "package z;enum Foo{A}"), ("c", "package a;interface XFoo{}")],
+        [("a", "package p; /** */ interface I { /***/ void f(/** */ int a); /** * */ const int K = 1; }")],
+        [("a", "package com.acme.\n   telemetry . /* x */ model; parcelable Sample {}"),
+         ("b", "package p; import com.acme.telemetry.model.Sample; interface I { void f(in Sample s, in com . acme.telemetry.model . Sample t); }")],
         [("a", "package android.os;interface ParcelFileDescriptor{}"), ("b", "package p;import android.os.ParcelFileDescriptor;parcelable P{ParcelFileDescriptor a;android.os.ParcelFileDescriptor b;}")],
     ]
     for i, f in enumerate(fixed):
@@ -194,7 +205,9 @@ def gen_C11(rng, tier):
 
 # ------------------------------------------------------------------ C12
 CONTENTS = ["package p;interface A{void f(in B b);}", "package p;parcelable B{int x;}",
-            "package p;import p.B;interface A{B g();}", "package p; interface {"]
+            "package p;import p.B;interface A{B g();}", "package p; interface {",
+            "package p;parcelable A{int y;}", "package q;import p.A;import p.B;interface U{void f(A a, B b, out A c);}",
+            "package p;enum B{X}"]
 
 
 def gen_C12(rng, tier):
@@ -209,6 +222,22 @@ def gen_C12(rng, tier):
         for seq in itertools.product(alphabet, repeat=L):
             cases.append({"name": f"ex{k}", "ops": list(seq)})
             k += 1
+    # short random histories over the small pool (same key under several ids, same id changing kind), validate in between
+    for i in range(700 if tier == "quick" else 10000):
+        ops = []
+        for _ in range(rng.choice([3, 4, 5, 6, 8])):
+            r = rng.random()
+            if r < 0.5:
+                ops.append(("add", rng.choice(ids), rng.choice(CONTENTS)))
+            elif r < 0.65:
+                ops.append(("remove", rng.choice(ids)))
+            elif r < 0.9:
+                ops.append(("validate",))
+            elif r < 0.95:
+                ops.append(("addfile", rng.choice(ids), "ok", rng.choice(CONTENTS)))
+            else:
+                ops.append(("addfile", rng.choice(ids), "bad", b"\xff\xfe"))
+        cases.append({"name": f"sp{i}", "ops": ops})
     # from every reachable abstract state: prefix that builds the state, then every op (length up to 4 in total)
     n = 400 if tier == "quick" else 6000
     for i in range(n):
@@ -314,7 +343,8 @@ def post_C13(cases, xs):
 # ------------------------------------------------------------------ syntax-level generators (C20, later C01-C04, C14)
 VOCAB = ["package", "import", "interface", "parcelable", "enum", "oneway", "const", "in", "out", "inout", "void", "int",
          "String", "CharSequence", "List", "Map", "true", "false", "Foo", "x", "p.q", "@A", "7", "1.5", '"s"',
-         ";", ",", "{", "}", "(", ")", "[", "]", "<", ">", "=", ".", "-", "class", "do", "double", "#", "é"]
+         ";", ",", "{", "}", "(", ")", "[", "]", "<", ">", "=", ".", "-", "class", "do", "double", "#", "é",
+         "PACKAGE", "INTERFACE", "INTEGER", "BOOLEAN", "IDENT", "FLOAT"]
 
 
 def mutate_tokens(rng, toks):
@@ -348,7 +378,10 @@ def gen_C20(rng, tier):
     fixed = ["", "package", "package p", "package p;", "package p; interface", "package p; interface I {", "package p; interface I { x }",
              "package p; interface I { void f( }", "package p; enum E { A = }", "package p; parcelable P { int ; }",
              "package p; interface I {} interface J {}", "interface I {}", "package p; import q; interface I {}",
-             "package p; interface I { void f() = -1; }", "package p; parcelable P { int x = 1. ; }"]
+             "package p; interface I { void f() = -1; }", "package p; parcelable P { int x = 1. ; }",
+             "package p; @Ann(key = 1 ; interface I {}", "package p; @Ann(key = 1", "package p; interface I { @A(k=true x) void f(); }",
+             "PACKAGE a.b;", "package p; oneway INTERFACE I {}", "package p; interface I { void f() = INTEGER; }",
+             "package p; @Ann(k = BOOLEAN) interface I {}"]
     for t in fixed:
         cases.append(nm(f"fixed{k}", [("f", t)]))
         k += 1
